@@ -899,7 +899,11 @@ func vC15GenConfig(r *vRng) (bool, int, [][]vC15Op) {
 	}
 	var dops []vC15Op
 	for j, m := 0, r.rng(1, 2); j < m; j++ {
-		switch r.intn(4) {
+		pick := r.intn(4)
+		if j == 0 && server && pick != 2 {
+			pick = 1 // at least one data frame that takes two transport writes
+		}
+		switch pick {
 		case 0:
 			dops = append(dops, vC15WM(r.pickInt(1, 2), r.rng(0, B)))
 		case 1:
@@ -1053,6 +1057,7 @@ func TestVerifC15(t *testing.T) {
 			vC15Fix([][]vC15Op{{vC15Ctl(false, 9, 8)}, {vC15Ctl(false, 10, 8)}, {vC15Ctl(false, 8, 8)}, {vC15Msg(1, 10, 100, 3)}}),
 			vC15Fix([][]vC15Op{{vC15Ctl(false, 9, 8)}, {{kind: 3}}, {vC15Msg(1, 16, 16, 5)}}),
 			vC15Fix([][]vC15Op{{vC15Ctl(false, 8, 8), vC15Ctl(false, 9, 8)}, {vC15WM(2, 60), vC15WM(1, 3)}}),
+			vC15Fix([][]vC15Op{{vC15Ctl(false, 9, 8), vC15Ctl(false, 10, 8)}, {vC15Ctl(false, 8, 8)}, {{kind: 3}}, {vC15Msg(2, 10, 100, 3)}}),
 		}
 		budget := time.Now().Add(6 * time.Minute)
 		for _, th := range configs {
